@@ -249,6 +249,40 @@ pub fn corrupt_tqc(rng: &mut StdRng, weights: &[u64], q: &ATqc) -> Vec<(&'static
         }
         out.push(("high_vote_other_genesis", c));
     }
+    // two groups whose nested certificates certify the SAME vote, one genuine and one without a quorum / with a bad
+    // signature, in both relative orders (a verifier that checks "one certificate per certified message" accepts these)
+    if ng >= 2 && n >= 2 {
+        let v = avote(q.view.v.saturating_sub(1), 1, 2);
+        let all: Vec<usize> = (0..n).collect();
+        let good = acqc(n, v.clone(), &all);
+        for (label, bad) in [
+            ("nested_same_msg_low_signer", acqc(n, v.clone(), &[0])),
+            ("nested_same_msg_high_signer", acqc(n, v.clone(), &[n - 1])),
+            ("nested_same_msg_bad_sig", { let mut b = acqc(n, v.clone(), &all); b.sig[0].1.h += 1; b }),
+        ] {
+            for swap in [false, true] {
+                let mut c = q.clone();
+                let (ga, gb) = if swap { (1, 0) } else { (0, 1) };
+                let olda = c.map[ga].0.clone();
+                let oldb = c.map[gb].0.clone();
+                c.map[ga].0.hq = Some(good.clone());
+                c.map[gb].0.hq = Some(bad.clone());
+                // keep the two contents distinct
+                if c.map[ga].0 == c.map[gb].0 {
+                    continue;
+                }
+                let (newa, newb) = (c.map[ga].0.clone(), c.map[gb].0.clone());
+                for s in &mut c.sig {
+                    if s.1 == olda {
+                        s.1 = newa.clone();
+                    } else if s.1 == oldb {
+                        s.1 = newb.clone();
+                    }
+                }
+                out.push((label, c));
+            }
+        }
+    }
     let mut c = q.clone();
     c.view.e = 1;
     out.push(("epoch", c));
